@@ -27,6 +27,12 @@ Vocabulary of the statements
                      it: a designator names it, or the cursor comes back to it from the member before it.  gcc lets the array
                      grow with every initializer, chibicc fixes its length at the first one; Findings/C05.lean).  The region is
                      empty for every type without flexible array member (`C05_parse_spec_three_regions`).
+                     A union's brace-enclosed list may hold several initializers (`union_rest` of /repo e1837fd, model
+                     `unionRest`): they are covered as long as they stay with the member initialised so far (designators into it,
+                     excess elements); an initializer that makes ANOTHER member the initialised one is noted by the specification
+                     as `over` - there parser and specification agree when the switch happens in the union's own list (tested
+                     tie, exhaustive scope `Findings.C05.C05_union_scope`) and differ when it happens through a designator of
+                     an enclosing list (known finding C05-brace-override-keeps-old).
 -/
 import ChibiVerif.Model.Init
 import ChibiVerif.Spec.InitSpec
@@ -116,9 +122,12 @@ example : (parseInit exTy [.lbrace, .expr (Expr.num 1), .comma, .dot "a", .idx 1
     chibicc keeps the length of the first initializer, the specification (gcc) lets the array grow
     (`Findings.C05.C05_note_flex_reinit`).  Outside the four regions it is PROVED below for every declared type
     (`C05_parse_spec_partial`: scalars, arrays, arrays of unknown bound, structs - the declared struct may end in a flexible array
-    member -, unions); what is missing for the full statement outside the regions is exactly type terms that no C declaration
-    produces: an array of unknown bound or a struct with flexible array member as a member or element, a union with a flexible
-    array member (gcc 12: "flexible array member in union"), a union without named member. -/
+    member -, unions, whose brace-enclosed list may hold several initializers: `union_rest` of /repo e1837fd); what is missing
+    for the full statement outside the regions is exactly type terms that no C declaration produces - an array of unknown bound or
+    a struct with flexible array member as a member or element, a union with a flexible array member (gcc 12: "flexible array
+    member in union"), a union without named member.  (Inside `BraceOverride` parser and specification DO agree when the region is
+    entered by a member switch in the union's own list - `union U u = {.a = 1, .b = 2}` - as the exhaustive scope
+    `Findings.C05.C05_union_scope` and the tested tie show; that part of the region is not proved.) -/
 def C05_parse_spec_Statement : Prop :=
   ∀ (ty : Ty) (toks : List ITok) (p : Init × List ITok) (r : InitSpec.Result),
     parseInit ty toks = .ok p → InitSpec.initFull ty toks = .ok r → Init.beq p.1 r.obj = true ∧ p.2 = r.rest
@@ -255,6 +264,20 @@ example :
     ((InitSpec.initFull scopeG [.lbrace, .dot "f", .eq, .lbrace, .idx 2, .dot "y", .eq, one, .comma, .lbrace, one, .comma, one, .rbrace, .rbrace,
         .comma, .dot "a", .eq, one, .rbrace]).toOption.map (fun r => (r.fl.clean, (resolveTy scopeG r.obj).size))) = some (true, 36) := by
   decide +kernel
+
+/-- `union { int a; struct { int p, q; } s; long b; }` inside a struct: a union's list with several initializers -/
+def scopeU : Ty := .struct [(⟨some "k", 0, none⟩, tInt),
+  (⟨some "u", 8, none⟩, .union [(⟨some "a", 0, none⟩, tInt),
+      (⟨some "s", 0, none⟩, .struct [(⟨some "p", 0, none⟩, tInt), (⟨some "q", 4, none⟩, tInt)] 8 false),
+      (⟨some "b", 0, none⟩, .scalar 8 .int)] 8 false)] 16 false
+
+/-- non-vacuity of `C05_parse_spec_partial` for a union's list with several initializers (`union_rest`):
+    `{ 1, { .s.q = 1, .s.p = 1, 1 } }` - two designators into the member initialised first and an excess element -/
+example : InitSpec.tyOk scopeU = true ∧
+    ((parseInit scopeU [.lbrace, one, .comma, .lbrace, .dot "s", .dot "q", .eq, one, .comma, .dot "s", .dot "p", .eq, one, .comma, one,
+        .rbrace, .rbrace]).toOption.map (fun p => p.2.length)) = some 0 ∧
+    ((InitSpec.initFull scopeU [.lbrace, one, .comma, .lbrace, .dot "s", .dot "q", .eq, one, .comma, .dot "s", .dot "p", .eq, one, .comma, one,
+        .rbrace, .rbrace]).toOption.map (fun r => r.fl.clean)) = some true := by decide +kernel
 
 /-- **C05 (flexible array member: length).**  Outside the four regions the flexible member of the object the parser builds has
     exactly the elements the specification's growing array has - the largest index that receives an initializer, plus one - and
